@@ -40,7 +40,7 @@ func (i *In) parseHash(
 			return err
 		}
 
-		if nextT.IsTargetIdentifier("}") {
+		if nextT == nil || nextT.IsTargetIdentifier("}") {
 			break
 		}
 
@@ -112,7 +112,7 @@ func (i *In) parseArray(
 			continue
 		}
 
-		if nextT.IsTargetIdentifier("]") {
+		if nextT == nil || nextT.IsTargetIdentifier("]") {
 			break
 		}
 
@@ -137,7 +137,7 @@ func (i *In) parseParentheses(p *parser.Parser, ctx context.Context) error {
 			i.parseVariable(ctx, nextT)
 		}
 
-		if nextT.IsTargetIdentifier(")") {
+		if nextT == nil || nextT.IsTargetIdentifier(")") {
 			break
 		}
 	}
@@ -379,7 +379,7 @@ func (i *In) Evaluation(
 			return err
 		}
 
-		if nextT.IsNewLineIdentifier() {
+		if nextT == nil || nextT.IsNewLineIdentifier() {
 			break
 		}
 
